@@ -193,6 +193,10 @@ def check_simplified(inp, ctx, res, labels):
     v = _check_simplified(inp, ctx, res, labels)
     if v is not None:
         v["sig"]["ill_conditioned"] = ill_conditioned(inp + (ctx or []))
+        if v["sig"]["kind"] == "lost-constraint":
+            d = v["detail"]
+            # marginal: the original term is exceeded by at most 1e-2*(1+|c|) (solver tolerances amplified by the coefficient spread)
+            v["sig"]["marginal"] = bool(d["lhs_float"] - d["bound"] <= 1e-2 * (1 + abs(d["bound"])))
     return v
 
 
